@@ -40,6 +40,9 @@ def main():
             shutil.copy("/repo/" + f, W + "/" + f)
         os.makedirs(W + "/lib", exist_ok=True)
         shutil.copy("%s/demo%s.cpp" % (D, k), W + "/demo.cpp")
+        for f in os.listdir(D):                      # headers shared by the author's demonstrations
+            if f.endswith(".h") or f.endswith(".hpp"):
+                shutil.copy(os.path.join(D, f), W + "/" + f)
         old = "%s/%s" % (src, prop)
         build = meta.get("demo_build", "")
         build = re.sub(r"\s+\(.*$", "", build.strip())              # drop trailing remarks
@@ -108,6 +111,9 @@ def main():
             os.makedirs(dst, exist_ok=True)
             shutil.copy(patch, dst + "/patch.diff")
             shutil.copy("%s/demo%s.cpp" % (D, k), dst + "/demo.cpp")
+            for f in os.listdir(D):
+                if f.endswith(".h") or f.endswith(".hpp"):
+                    shutil.copy(os.path.join(D, f), dst + "/" + f)
             with open(dst + "/meta.json", "w") as f:
                 json.dump({"breaks_property": prop, "summary": res["summary"], "needs_to_manifest": res["needs_to_manifest"], "files": res["files"],
                            "confirmed_by": {"baseline_demo_rc": res["baseline_demo_rc"], "tests_with_change": res["tests"], "demo_rc_with_change": res["mutant_demo_rc"],
